@@ -328,6 +328,12 @@ inductive Op where
       fails (no temp file can be created) or the per-update encoder fails on a
       record; the call returns `uuid.Nil, err` and the store is untouched -/
   | failed (k : Kind) (updater fp : String) (recs : List Rec)
+  /-- the `io.Writer` failed in the middle of a line: `enc.Encode` had handed it
+      the whole line in one `Write`, it took part of it — the output now ends in
+      bytes that are not a `diskEntry` -/
+  | tear
+  /-- the caller starts a new, empty output -/
+  | newfile
 deriving Repr
 
 /-- The store plus everything written so far to the one `io.Writer` all `Store`
@@ -345,6 +351,7 @@ inductive Out where
   | stored (ok : Bool) (lines : List Line) (left : List Nat)
   | badOrder
   | err                        -- the recording call returned an error
+  | done
 deriving Repr
 
 def step (w : World) : Op → World × Out
@@ -361,6 +368,8 @@ def step (w : World) : Op → World × Out
     | none => (w, .badOrder)
     | some (s', ls, ok) => ({ store := s', out := w.out ++ ls }, .stored ok ls (s'.entries.map (·.ref)))
   | .failed _ _ _ _ => (w, .err)
+  | .tear => ({ w with out := w.out ++ [{ ref := 0, updater := "", fp := "", body := .garbage }] }, .done)
+  | .newfile => ({ w with out := [] }, .done)
 
 /-! ### OfflineImport's loop -/
 
